@@ -28,6 +28,7 @@ EXPLANATION = (
     "the right fields, and the m.update() sequences of calcHA1/calcHA2/calcResponse equal RFC 2617 on every path. "
     "Not decided: the hash arithmetic itself, conditional TypeErrors of checkPassword (md5-sess without cnonce, "
     "qop=auth-int); the unconditional ones (unknown algorithm, missing uri) are reported as known findings."
+    "Also decided: no anchor on the decode->guards path (nor the clock, nonce and opaque generators) carries a decorator, second definition or rebinding that could answer a call without executing the body (memoisation of a verdict that depends on the clock); the pure _digest helpers may be cached. "
 )
 ASSUMPTIONS = [
     "host / method arguments of decode come from the server side (not client-controlled)",
@@ -299,7 +300,8 @@ def _s_verify(ctx, S):
 
     R = lambda e: resolve(e, fv)
     exits = normal_exits(gv)
-    ctx.need(exits, "a normal exit in _verifyOpaque")
+    if not exits:
+        ctx.violation("verify/returns-true", qv, "_verifyOpaque has no normal exit: no response - however well-formed - can ever be accepted")
     L = None
     try:
         L = const_eval(class_assigns(cls)["CHALLENGE_LIFETIME_SECS"])
@@ -457,7 +459,8 @@ def _s_decode(ctx, S):
     ctx.check(bool(vcalls), "decode/verifies-opaque", qd, "decode() never calls self._verifyOpaque")
     rets = [x for x in normal_exits(gd) if isinstance(gd.node(x).ast, ast.Return) and gd.node(x).ast.value is not None
             and not (isinstance(gd.node(x).ast.value, ast.Constant) and gd.node(x).ast.value.value is None)]
-    ctx.need(rets, "a `return DigestedCredentials(...)` in decode")
+    ctx.check(bool(rets), "decode/returns-credentials", qd, "decode() never returns credentials: a response computed with the right password over an "
+              "unaltered, fresh challenge is not accepted")
     authdict = None
     for nid, c in vcalls:
         a = [Rd(x) for x in c.args]
@@ -523,7 +526,10 @@ def _s_challenge(ctx, S):
     qw = "twisted.web._auth.digest.DigestCredentialFactory"
     addr_c = [c.args[0] for c in ast.walk(wc) if isinstance(c, ast.Call) and call_attr(c) == "getChallenge" and c.args]
     dec = [c for c in ast.walk(wd) if isinstance(c, ast.Call) and call_attr(c) == "decode" and len(c.args) == 3]
-    ctx.need(addr_c and dec, "web wrapper delegating getChallenge/decode")
+    if not (addr_c and dec):
+        ctx.violation("web/address-paired", qw + " | client address", "the web wrapper does not delegate getChallenge(<client address>) / "
+                      "decode(response, method, <client address>) to the cred factory: challenge and verification are not bound to one address")
+        return
     pw = params(wd)
     a = rsrc(addr_c[0], wc).replace(params(wc)[1], "REQ")
     b = rsrc(dec[0].args[2], wd).replace(pw[2], "REQ")
@@ -551,7 +557,9 @@ def _s_response(ctx, S):
         secret = params(fm)[1]
         Rm = lambda e: resolve(e, fm)
         rets = [n for n in walk_local(fm) if isinstance(n, ast.Return)]
-        ctx.need(rets, f"return in {meth}")
+        if not rets:
+            ctx.violation("response/compared-with-expected", ctx.construct(qm, "return <expected == response>"), f"{meth} returns nothing (None): no password is ever accepted")
+            continue
         for r in rets:
             v = r.value
             sides = None
@@ -734,6 +742,20 @@ MUTANTS = [
            "            response, request.method, request.getHost().host\n", expect_rule="web/address-paired"),
     Mutant("response-not-bound-to-nonce", DIGEST, "    m.update(HA1)\n    m.update(b\":\")\n    m.update(pszNonce)\n    m.update(b\":\")\n    if pszNonceCount",
            "    m.update(HA1)\n    m.update(b\":\")\n    if pszNonceCount", expect_rule="rfc2617/response-sequence"),
+    Mutant("verification-verdict-memoised", _V, "    def _verifyOpaque(self, opaque, nonce, clientip):",
+           "    @functools.lru_cache(maxsize=256)\n    def _verifyOpaque(self, opaque, nonce, clientip):",
+           more=[(_V, "import base64\n", "import base64\nimport functools\n")], expect_rule="memo/body-entered-on-every-call"),
+    Mutant("verification-wrapped-after-definition", _V, "    def decode(self, response, method, host):",
+           "    _verifyOpaque = _remember(_verifyOpaque)\n\n    def decode(self, response, method, host):",
+           more=[(_V, "class DigestCredentialFactory:\n", "def _remember(f, _seen={}):\n    def wrapper(*a):\n        if a[1:] not in _seen:\n            _seen[a[1:]] = f(*a)\n        return _seen[a[1:]]\n    return wrapper\n\n\nclass DigestCredentialFactory:\n")],
+           expect_rule="memo/body-entered-on-every-call"),
+    Mutant("clock-cached", _V, "    def _getTime(self):", "    @functools.cache\n    def _getTime(self):",
+           more=[(_V, "import base64\n", "import base64\nimport functools\n")], expect_rule="memo/body-entered-on-every-call"),
+    Mutant("hand-written-verdict-cache", _V, "        # First split the digest from the key\n        opaqueParts = opaque.split(b\"-\")",
+           "        if (opaque, nonce, clientip) in self._verified:\n            return True\n        opaqueParts = opaque.split(b\"-\")",
+           more=[(_V, "        return True\n\n    def decode(self, response, method, host):", "        self._verified.add((opaque, nonce, clientip))\n        return True\n\n    def decode(self, response, method, host):"),
+                 (_V, "        self.privateKey = secureRandom(12)\n", "        self.privateKey = secureRandom(12)\n        self._verified = set()\n")],
+           expect_rule="verify/guard-lifetime"),
     Mutant("short-key-index", _V, "        if len(keyParts) != 3:\n", "        if len(keyParts) < 2:\n", expect_rule="escape/index-in-range"),
     Mutant("checkHash-uses-cnonce-as-nonce", _V,
            "            calcHA2(algo, self.method, uri, qop, None),\n            algo,\n            nonce,\n            nc,\n            cnonce,\n            qop,\n        )\n\n        return expected == response\n\n\nclass DigestCredentialFactory",
@@ -749,5 +771,8 @@ SILENT = [
     Silent("presence-checks-reordered", _V,
            "        if \"opaque\" not in auth:\n            raise error.LoginFailed(\"Invalid response, no opaque given.\")\n\n        if \"nonce\" not in auth:\n            raise error.LoginFailed(\"Invalid response, no nonce given.\")\n",
            "        if not \"nonce\" in auth:\n            raise error.LoginFailed(\"Invalid response, no nonce given.\")\n\n        if \"opaque\" not in auth:\n            raise error.LoginFailed(\"Invalid response, no opaque given.\")\n"),
+    Silent("pure-digest-helper-cached", DIGEST, "def calcHA2(algo, pszMethod, pszDigestUri, pszQop, pszHEntity):",
+           "@lru_cache(maxsize=64)\ndef calcHA2(algo, pszMethod, pszDigestUri, pszQop, pszHEntity):",
+           more=[(DIGEST, "from binascii import hexlify\n", "from binascii import hexlify\nfrom functools import lru_cache\n")]),
     Silent("update-concatenated", DIGEST, "    m.update(pszMethod)\n    m.update(b\":\")\n    m.update(pszDigestUri)\n", "    m.update(pszMethod + b\":\")\n    m.update(pszDigestUri)\n"),
 ]
